@@ -9,6 +9,7 @@ import (
 	"fmt"
 	"hash/fnv"
 	"os"
+	"runtime"
 	"runtime/debug"
 	"sort"
 	"strconv"
@@ -212,6 +213,7 @@ func vRunProp[C any](t *testing.T, id string, gen func(*rapid.T) *C, check func(
 		budget = time.Duration(v) * time.Second
 	}
 	start := time.Now()
+	ncases := 0
 	rapid.Check(t, func(rt *rapid.T) {
 		if budget > 0 && time.Since(start) > budget && !st.frozen {
 			st.Extra["time_budget_hit"] = true
@@ -222,6 +224,12 @@ func vRunProp[C any](t *testing.T, id string, gen func(*rapid.T) *C, check func(
 			st.Evaluations++
 		}
 		f := safeCheck(check, c, st)
+		// the engine's verdict cache runs in debug mode and opens cacheHitsLog.txt at every hit without closing it; the
+		// descriptors are only released by finalizers. Collect regularly, so that a shard full of eval queries on a busy
+		// machine does not run into the descriptor limit (seen once: "too many open files" = an infrastructure failure).
+		if ncases++; ncases%16 == 0 {
+			runtime.GC()
+		}
 		if f == nil {
 			return
 		}
